@@ -14,7 +14,7 @@
 (***************************************************************************)
 EXTENDS FixedCompose, TLC, Json
 
-CONSTANTS Depth, Alphabet     \* Alphabet: "full" | "small" | "classes" | "reph" | "rephclasses"
+CONSTANTS Depth, Alphabet     \* Alphabet: "full" | "small" | "classes" | "reph" | "rephclasses" | "rephcons"
 
 VARIABLES o, s, h
 vars == <<o, s, h>>
@@ -33,9 +33,12 @@ ClassValues == {<<c>> : c \in Punct \cup Consonants \cup IndepVowels \cup Kars \
 \* shorter histories ending in the reph key
 RephClassValues == {<<"ক">>, <<"র">>, <<"ত">>, <<"আ">>, <<HASANTA>>, <<CHANDRA>>, <<ANUSVARA>>, <<VISARGA>>, <<ZWNJ>>, <<"(">>, <<"১">>,
                     <<"ৎ">>, REPH, ROFOLA, ZOFOLA} \cup {<<k>> : k \in Kars}
+\* C13 consonant sweep: EVERY consonant (the scan asks "is this a consonant?" of each character it meets)
+RephConsValues == {<<c>> : c \in Consonants} \cup {<<HASANTA>>, <<"া">>, <<"ো">>, REPH}
 Values == IF Alphabet = "full" THEN FullValues ELSE IF Alphabet = "small" THEN SmallValues
           ELSE IF Alphabet = "classes" THEN ClassValues
-          ELSE IF Alphabet = "rephclasses" THEN RephClassValues ELSE RephValues
+          ELSE IF Alphabet = "rephclasses" THEN RephClassValues
+          ELSE IF Alphabet = "rephcons" THEN RephConsValues ELSE RephValues
 
 OptSet == IF Alphabet \in {"full", "small", "classes"}
           THEN [vowel : BOOLEAN, chandra : BOOLEAN, kar : BOOLEAN, reph : BOOLEAN, karorder : {FALSE}]
@@ -58,7 +61,7 @@ BsStep ==
                        norm |-> ~o.karorder])        \* (with old order on a backspace may discard a waiting sign instead: C14)
 
 \* (reph alphabets: only histories ending in the reph key are emitted, so the last step of a full-length history is that key)
-LastStepOK(v) == (Alphabet \in {"reph", "rephclasses"} /\ Len(h) = Depth - 1) => v = REPH
+LastStepOK(v) == (Alphabet \in {"reph", "rephclasses", "rephcons"} /\ Len(h) = Depth - 1) => v = REPH
 Next == /\ Len(h) < Depth /\ ~s.crash
         /\ ((\E v \in Values : LastStepOK(v) /\ KeyStep(v)) \/ (LastStepOK(<<>>) /\ BsStep))
         /\ UNCHANGED o
